@@ -63,6 +63,12 @@ func selText(e ast.Expr) string {
 		if p := selText(x.X); p != "" {
 			return p + "." + x.Sel.Name
 		}
+	case *ast.IndexExpr: // a fixed element, `key.Bits()[3]`, may be declared as a free variable
+		if lit, ok := x.Index.(*ast.BasicLit); ok && lit.Kind == token.INT {
+			if p := selText(x.X); p != "" {
+				return p + "[" + lit.Value + "]"
+			}
+		}
 	case *ast.CallExpr: // a getter without arguments, `entry.GetHeight()`, or `len(x)` may be declared as a free variable
 		if len(x.Args) == 0 {
 			if p := selText(x.Fun); p != "" {
@@ -126,6 +132,7 @@ func (t *tr) free(e ast.Expr) (string, string, bool) {
 	lt := leanType(gt)
 	name := strings.ReplaceAll(strings.ReplaceAll(txt, "()", ""), ".", "_")
 	name = strings.ReplaceAll(strings.ReplaceAll(name, "(", "_"), ")", "")
+	name = strings.ReplaceAll(strings.ReplaceAll(name, "[", "_"), "]", "")
 	if leanReserved[name] {
 		name += "_v"
 	}
@@ -216,6 +223,11 @@ func (t *tr) expr(e ast.Expr, want string) (string, string) {
 			}
 		}
 		fail("selector %v", x.Sel.Name)
+	case *ast.IndexExpr:
+		if n, lt, ok := t.free(x); ok {
+			return n, lt
+		}
+		fail("index expression")
 	case *ast.StarExpr:
 		if id, ok := x.X.(*ast.Ident); ok && t.ptrRecv && id.Name == t.recv {
 			return id.Name, t.env[id.Name]
